@@ -745,6 +745,35 @@ pub fn eval_io_case(t: &[&str]) -> Option<String> {
                 Some(result)
             }
         }
+        "TMS" => {
+            // TMS n state: n state queries in a row on ONE bus, each answered with a report of that state; which of the
+            // exchanges returned no earlier than 100 ms after its reply had been read
+            let n: usize = t[1].parse().unwrap();
+            let reply = flipdot_core::Frame::from(msg_of_str(&format!("RS.3.{}", t[2]))).to_bytes_with_newline();
+            let tape: Vec<u8> = (0..n).flat_map(|_| reply.iter().copied()).collect();
+            let port = TestPort::new(SchedReader::new(tape, vec![]), SchedWriter::new(vec![]));
+            let mut bus = match SerialSignBus::try_new(port) {
+                Ok(b) => b,
+                Err(_) => return Some("ER SETUP".to_string()),
+            };
+            let mut paced: Vec<usize> = vec![];
+            let mut unpaced: Vec<usize> = vec![];
+            for i in 0..n {
+                let start = Instant::now();
+                let r = guarded(|| bus.process_message(msg_of_str("QS.3")));
+                let end = Instant::now();
+                if !matches!(r, Some(Ok(Some(_)))) {
+                    return Some(format!("exchange {} failed", i + 1));
+                }
+                let after_read = bus.port().rd.last_read_end.filter(|r| *r >= start).map(|r| end.saturating_duration_since(r)).unwrap_or_default();
+                if after_read >= Duration::from_millis(100) {
+                    paced.push(i + 1);
+                } else {
+                    unpaced.push(i + 1);
+                }
+            }
+            Some(format!("n={} paced={} first-unpaced={}", n, paced.len(), unpaced.first().map(|i| i.to_string()).unwrap_or_else(|| "-".to_string())))
+        }
         "SBS" => {
             // SBS k msg1..msgk tape rsched... / wsched... : k exchanges on ONE SerialSignBus over one port
             let k: usize = t[1].parse().unwrap();
